@@ -14,6 +14,35 @@ def exh_cases(n, lo, hi, M, inits):
                    "deliv": tok.DELIVS[(v // 3 + k) % 3]}
 
 
+REUSE_HOWS = ("list", ["gen", 0], ["gen", 1], ["two_gens"])
+
+
+def reuse_cases(shard, nshards, M, Lpre, Lmain, inits=((0, 0),)):
+    """Every (parameters, earlier stream, how it was left, later stream) with both streams short:
+    a tokenizer that has been used before must behave like a fresh one."""
+    params = list(gen.all_params(M, inits=inits))
+    k = 0
+    for p in params:
+        for npre in range(1, Lpre + 1):
+            for v in range(1 << npre):
+                k += 1
+                if k % nshards != shard:
+                    continue
+                pre = format(v, f"0{npre}b")
+                for hi, how in enumerate(REUSE_HOWS):
+                    for nm in range(1, Lmain + 1):
+                        for w in range(1 << nm):
+                            yield {"pat": format(w, f"0{nm}b"), "p": p, "pre": {"pat": pre, "how": how},
+                                   "kind": tok.KINDS[(v + w) % len(tok.KINDS)],
+                                   "deliv": "gen" if how[0] == "two_gens" else tok.DELIVS[(w + hi) % 3]}
+
+
+def reuse_jobs(tier, nshards=16):
+    Lpre, Lmain, M = (5, 4, 3) if tier == "quick" else (6, 5, 4)
+    return [{"name": f"exh-reuse-{i}", "kind": "exh_reuse", "shard": i, "nshards": nshards, "M": M, "Lpre": Lpre, "Lmain": Lmain}
+            for i in range(nshards)]
+
+
 def std_jobs(tier, seed, bounds, shards=16):
     b = bounds[tier]
     out = []
@@ -23,6 +52,7 @@ def std_jobs(tier, seed, bounds, shards=16):
             out.append({"name": f"exh-n{n}-{lo}", "kind": "exh", "n": n, "lo": lo,
                         "hi": min(1 << n, lo + chunk), "M": b["M"]})
     out.sort(key=lambda j: -j["n"])
+    out = reuse_jobs(tier) + out
     for i in range(shards):
         out.append({"name": f"hyp-{i}", "kind": "hyp", "seed": seed * 1000 + i,
                     "n": b["hyp_examples"], "maxlen": b["maxlen"], "maxmax": b["maxmax"]})
@@ -32,6 +62,8 @@ def std_jobs(tier, seed, bounds, shards=16):
 def std_run_job(mod, job, rec, inits, init="any"):
     if job["kind"] == "exh":
         run_cases(mod, exh_cases(job["n"], job["lo"], job["hi"], job["M"], inits), rec)
+    elif job["kind"] == "exh_reuse":
+        run_cases(mod, reuse_cases(job["shard"], job["nshards"], job["M"], job["Lpre"], job["Lmain"], inits), rec)
     elif job["kind"] == "hyp":
         hyp_run(mod, gen.tok_case(job["maxmax"], job["maxlen"], init=init), rec,
                 job["seed"], job["n"])
